@@ -69,6 +69,15 @@ type e20Suite struct {
 func tokenAddr(i int) common.Address {
 	b := make([]byte, 20)
 	copy(b, []byte(fmt.Sprintf("token%d______________", i)))
+	// addresses at the two ends of the key space: index ranges are half-open
+	switch i {
+	case 1:
+		b[0] = 0xff
+	case 4:
+		b[0], b[1] = 0xff, 0xff
+	case 5:
+		b[0] = 0x00
+	}
 	return common.BytesToAddress(b)
 }
 
